@@ -524,8 +524,17 @@ impl<'de, 'a, 'd: 'de> de::Deserializer<'de> for &'a mut De<'d> {
         if t.kind == K::Str {
             visitor.visit_enum(EnumAcc { de: self, unit: true })
         } else if t.kind == K::Map && t.n == 1 {
+            // cursor normalised to the end of the slot on every path (see deserialize_any)
+            let end = self.pos + 1 + t.span as usize;
             self.pos += 1;
-            visitor.visit_enum(EnumAcc { de: self, unit: false })
+            let r = visitor.visit_enum(EnumAcc { de: &mut *self, unit: false });
+            let all = self.pos == end;
+            self.pos = end;
+            match r {
+                Ok(v) if all => Ok(v),
+                Ok(_) => Err(E),
+                Err(e) => Err(e),
+            }
         } else {
             Err(E)
         }
